@@ -30,10 +30,12 @@ class Model:
     def __init__(self, ids, shape, points):
         self.ids, self.shape, self.points = list(ids), list(shape), dict(points)
         self.shape_known = True      # False once a step's shape rule is not modelled
+        self.relative = set()        # (rank index, "rel") of ranks holding relative coordinates
 
     def copy(self):
         m = Model(self.ids, self.shape, self.points)
         m.shape_known = self.shape_known
+        m.relative = set(self.relative)
         return m
 
 
@@ -45,7 +47,10 @@ def legal(m, op):
     k = op[0]
     n = len(m.ids)
     if k == "split":
-        return op[1] < n and not is_flat_rank(m.ids[op[1]]) and not str(m.ids[op[1]]).endswith((".0", ".1"))
+        # int-coordinate ranks only; a lower split rank (X.0) may be split again, an upper one (X.1) is not
+        rid = m.ids[op[1]] if op[1] < n else None
+        return rid is not None and not is_flat_rank(rid) and not str(rid).endswith(".1") and str(rid).count(".") < 2 \
+            and not (op[1], "rel") in m.relative
     if k == "swizzle":
         # swizzleRanks documents rank_ids as a list of strings: tensors holding a
         # flattened rank (list id) are outside its domain
@@ -65,10 +70,18 @@ def apply_model(m, op):
     k = op[0]
     if k == "split":
         d, step = op[1], op[2]
+        rel = len(op) > 3 and op[3]
         x = m.ids[d]
         m.ids[d:d + 1] = [x + ".1", x + ".0"]
         m.shape[d:d + 1] = [m.shape[d], m.shape[d]]
-        m.points = {p[:d] + (p[d] // step * step, p[d]) + p[d + 1:]: v for p, v in m.points.items()}
+        if rel:
+            m.shape_known = False
+            m.relative = {(i + 1 if i > d else i, t) for i, t in m.relative} | {(d + 1, "rel")}
+            m.points = {p[:d] + (p[d] // step * step, p[d] - p[d] // step * step) + p[d + 1:]: v
+                        for p, v in m.points.items()}
+        else:
+            m.relative = {(i + 1 if i > d else i, t) for i, t in m.relative}
+            m.points = {p[:d] + (p[d] // step * step, p[d]) + p[d + 1:]: v for p, v in m.points.items()}
     elif k in ("swizzle", "swap"):
         if k == "swap":
             perm = list(range(len(m.ids)))
@@ -106,6 +119,8 @@ def apply_model(m, op):
 def apply_real(t, op, m_before):
     k = op[0]
     if k == "split":
+        if len(op) > 3 and op[3]:
+            return t.splitUniform(op[2], depth=op[1], relativeCoords=True)
         return t.splitUniform(op[2], depth=op[1])
     if k == "swizzle":
         return t.swizzleRanks([t.getRankIds()[i] for i in op[1]])
@@ -123,6 +138,7 @@ def menu(n):
     for d in range(n):
         for step in (1, 2):
             ops.append(("split", d, step))
+            ops.append(("split", d, step, True))
     for perm in itertools.permutations(range(n)):
         ops.append(("swizzle", perm))
     for d in range(n - 1):
